@@ -832,6 +832,8 @@ class ArrayOf(DataType):
         self.check_type(value)
         try:
             if previous:
+                # a shorter previous value must not truncate the new one
+                previous = tuple(previous) + (None,) * (len(value) - len(previous))
                 return tuple(self.members.validate(v, p) for v, p in zip(value, previous))
             return tuple(self.members.validate(v) for v in value)
         except Exception as e:
